@@ -42,10 +42,10 @@ type Solver struct {
 	Log       io.Writer // optional transcript
 
 	// assertion stack mirror, for the stand-alone fallback
-	asserted  [][]*Term
-	IncrMs    int // timeout of the incremental attempt
+	asserted        [][]*Term
+	IncrMs          int // timeout of the incremental attempt
 	standaloneModel map[string]uint64
-	Fallbacks int
+	Fallbacks       int
 }
 
 func NewSolver(ctx *TermCtx, timeoutMs int) (*Solver, error) {
